@@ -408,6 +408,7 @@ CONTROLS = (("ForkJoinMC_ctl_nofailfast.cfg", "FailFastCancels", "an error does 
             ("ForkJoinMC_finding_cancelleak.cfg", "NoLeakAfterCancel",
              "as coded: cancel() without Join leaves the idle workers behind (finding %s)" % FINDING))
 WORKERS = int(os.environ.get("VERIF_TLC_WORKERS", "0")) or 4
+POOL = int(os.environ.get("VERIF_FJ_POOL", "0")) or 5
 
 
 def design_check(o, tier, seed):
@@ -424,12 +425,16 @@ def design_check(o, tier, seed):
 
     def gen(_):
         return vlib.tlc(o.pid, FAMILY, "ForkJoinGen", "ForkJoinGen.cfg", simulate="num=%d" % (1500 if thorough else 260),
-                        depth=90, seed=seed, workers=1, timeout=600, sdir=gdir)
+                        depth=90, seed=seed, workers=1, timeout=600, sdir=gdir, heap="2g")
 
-    with ThreadPoolExecutor(max_workers=len(jobs) + 1) as ex:
+    # the machine is shared: at most POOL JVMs at a time, small heaps (the largest run holds < 6M states)
+    def run(jd):
+        (mod, cfg, w), d = jd
+        return vlib.tlc(o.pid, FAMILY, mod, cfg, workers=w, timeout=1700, sdir=d, heap="3g" if w > 1 else "1g")
+
+    with ThreadPoolExecutor(max_workers=POOL) as ex:
         fg = ex.submit(gen, 0)
-        res = list(ex.map(lambda jd: vlib.tlc(o.pid, FAMILY, jd[0][0], jd[0][1], workers=jd[0][2], timeout=1700, sdir=jd[1]),
-                          zip(jobs, dirs)))
+        res = list(ex.map(run, zip(jobs, dirs)))
         g = fg.result()
     for (mod, cfg, _), r in zip(jobs[:len(mains)], res[:len(mains)]):
         vlib.require_mc_ok(r, cfg)
